@@ -269,3 +269,11 @@ func execPersist(p persistProg, c *hx.Case) error {
 func TestPropPersistedPrefix(t *testing.T) {
 	hx.Run(t, hx.Spec{Prop: "C05", Persist: true, Rule: "1..3 real operators over 1..1000 key groups process one event per generated key (arbitrary bytes, routed by KeySpace.RangeIndex as a source runner does) that writes one state entry and one timer, then checkpoint; each operator's checkpoint is opened with plain dkv.Open and every persisted entry must sit under a two-byte big-endian group inside the operator's reported range and equal to the reference MurmurHash3-32 mod count of its subject key, and both entries of every key must be found; non-trivial = group count not divisible by the operator count and >=3 keys"}, genPersist, execPersist)
 }
+
+func FuzzMurmur(f *testing.F) {
+	hx.Fuzz(f, hx.Spec{Prop: "C05"}, genHash, execHash)
+}
+
+func FuzzKeySpace(f *testing.F) {
+	hx.Fuzz(f, hx.Spec{Prop: "C05"}, genKS, execKS)
+}
